@@ -309,8 +309,10 @@ class C02(Check):
                    'token lists have EOF only as last token and single-character CHAR tokens (tokenizer invariant, checked '
                    'by the driver on every request)',
                    '`@charset`: whether the encoding names a codec stays with the oracle (O.atOk charsetSym)',
-                   'disabling validation changes nothing: decided on the implementation only (the model has no validate '
-                   'parameter)')
+                   'validate flag: Model/ParseCfg.lean lets it decide about the validation records only; premise checked on '
+                   'the table Gen/C02Validate.lean regenerated from the AST of the package (theorems flag_reads_harmless, '
+                   'flag_guards, validate_body_pure); cssutils.profile.validateWithProfile, called by Property.validate, is '
+                   'not scanned (C13)')
 
     def translate(self, ctx):
         """`MarginRule.margins` (the at-keywords that open a margin box) -> Gen/C02Margins.lean"""
@@ -333,12 +335,16 @@ class C02(Check):
                  '-- `MarginRule.margins`: the at-keywords that open a margin box inside @page',
                  'namespace CssVerif.Gen.C02',
                  'def margins : List (List Nat) := ['] + rows + [']', 'end CssVerif.Gen.C02', '']
-        return {'CssVerif/Gen/C02Margins.lean': '\n'.join(lines)}
+        from harness import c02_validate
+        return {'CssVerif/Gen/C02Margins.lean': '\n'.join(lines),
+                # every read of the `validating` flag in the package, with what it guards (Props: flag_reads_harmless)
+                'CssVerif/Gen/C02Validate.lean': c02_validate.gen_lean(ctx.repo)}
 
     def run(self, ctx):
         ctx.phase(self.run_corpus, ctx)
         ctx.phase(self.corr_normalize, ctx)
         ctx.phase(self.corr_struct, ctx)
+        ctx.phase(self.corr_block, ctx)
         ctx.phase(self.oracle, ctx)
 
     def search(self, ctx):
@@ -440,6 +446,14 @@ class C02(Check):
                 # abstract sheet says, or the model/driver is wrong
                 ctx.disagree('projSheet(parseSheet(tokenize text)) vs abstract sheet', inp, first_diff(got, want), None)
                 continue
+            if level in (1, 3):
+                # the tie of `validate_irrelevant`: the same text parsed with validation off gives the same DOM
+                ctx.count('struct-validate-off')
+                real_off = real_struct(text, validate=False)
+                if real_off != real:
+                    ctx.violate('disabling validation changes nothing in the DOM', {'text': text},
+                                {'first_difference': first_diff(real_off, real)})
+                    continue
             mp = model_dom(model, toks)
             if mp != real and drop_rejected_margin_decls(mp) == real:
                 ctx.violate('the DOM has the declarations of every margin box', {'text': text},
@@ -451,6 +465,75 @@ class C02(Check):
                             'selectors and declarations (name, value, priority) of the source',
                             {'text': text, 'canonical': S.text(S.spell_sheet(ast, __import__('random').Random(0), 0, 0))},
                             {'first_difference': first_diff(real, mp)})
+
+    # -- declaration level: a block alone, comment parsing on and off ---------------------------------------
+    def corr_block(self, ctx):
+        """the tie of comments_off_block / comments_off_decl: a spelled declaration block (c02_struct.spell_block) is
+        tokenized with doComments on and off; the model's `projItems (parseDecls tokens)` must be the block's abstract
+        items (without the comment items when off) and must equal what the real CSSStyleDeclaration builds from the
+        same tokens.  Oracle: the public entry point CSSParser(parseComments=False).parseStyle must give the same."""
+        import json
+        import random
+        from lib.framework import enc
+        from cssutils.tokenize2 import Tokenizer
+        rng = ctx.sub_rng('c02-block')
+        cases = []
+        for i in range(ctx.n(150, 4000)):
+            decls = G.gen_decls(rng, 0, 4)
+            for level, inner in ((2, 2), (3, 4)):
+                sp = S.Sp(random.Random(rng.getrandbits(32)), level)
+                isp = G.Spelling(random.Random(rng.getrandbits(32)), inner)
+                b = S.spell_block(sp, isp, decls)
+                ds = [x[1] for x in b['items'] if x[0] == 'decl'] + ([b['last']] if b['last'] else [])
+                if not all(S.is_core(d['value']) for d in ds):
+                    ctx.count('block-not-core')
+                    continue
+                cases.append((level, b))
+        lines, toks_all = [], []
+        for level, b in cases:
+            text = S.t_block(b)
+            for comments in (True, False):
+                toks = list(Tokenizer(doComments=comments).tokenize(text))
+                toks_all.append((text, comments, toks))
+                lines.append('block ' + (','.join('%s:%s' % (S.mtype(t[0]), enc(t[1])) for t in toks) or '-'))
+        out = ctx.driver(lines) if ctx.model_ok else [None] * len(lines)
+        c = _cu()
+        for idx, ((level, b), ) in enumerate(zip(cases)):
+            want_on = S.e_block(b)
+            want_off = [dict(i, toks=[t for t in i['toks'] if t[0] != 'COMMENT']) if i['k'] == 'unknown' else i
+                        for i in want_on if i['k'] != 'comment']
+            for j, want in ((0, want_on), (1, want_off)):
+                text, comments, toks = toks_all[2 * idx + j]
+                o = out[2 * idx + j]
+                ctx.case(key=('block', text, comments), nontrivial=True, kind='block-comments-%s' % ('on' if comments else 'off'),
+                         sample={'text': text[:200]} if idx < 2 else None)
+                if o is None:
+                    continue
+                inp = {'block': text, 'parseComments': comments}
+                if not o.startswith('['):
+                    ctx.disagree('projItems(parseDecls tokens)', inp, want, o[:300])
+                    continue
+                model = json.loads(o)
+                got = model_abstract([{'k': 'fontface', 'items': model}], toks)[0]['items']
+                if got != want:
+                    ctx.disagree('projItems(parseDecls(tokenize block)) vs abstract items', inp, first_diff(got, want), None)
+                    continue
+                mp = model_dom([{'k': 'fontface', 'items': model}], toks)[0][1]
+                st = c.css.CSSStyleDeclaration()
+                st.cssText = iter(toks)
+                real = _real_items(st)
+                if mp != real:
+                    ctx.violate('a declaration block lists exactly the declarations that were written (name, value, '
+                                'priority)%s' % ('' if comments else ', without the comments when comment parsing is off'),
+                                inp, {'first_difference': first_diff(real, mp)})
+                    continue
+                if not comments:
+                    # the public entry point with the option
+                    pst = c.CSSParser(parseComments=False).parseStyle(text)
+                    if _real_items(pst) != real:
+                        ctx.violate('disabling comment parsing removes exactly the comments (CSSParser.parseStyle)', inp,
+                                    {'first_difference': first_diff(_real_items(pst), real)},
+                                    known='C02-parsestyle-keeps-comments' if '/*' in text else None)
 
     def corr_normalize(self, ctx):
         from cssutils import helper
@@ -563,6 +646,12 @@ class C02(Check):
 
     def known(self, ctx, finding):
         w = finding['witness']['data']
+        if finding['id'] == 'C02-parsestyle-keeps-comments':
+            c = _cu()
+            kept = c.CSSParser(parseComments=False).parseStyle(w['style'])
+            sheet = c.CSSParser(parseComments=False).parseString('a{%s}' % w['style'])
+            return any(i[0] == 'comment' for i in _real_items(kept)) and \
+                not any(i[0] == 'comment' for i in _real_items(sheet.cssRules[0].style))
         if finding['id'] == 'C02-margin-box-space-dropped':
             a = work({'texts': [(w['text'], True, True), (w['same_declaration_in_page_block'], True, True)]})
             if a[0][0] != 'ok' or a[1][0] != 'ok':
@@ -652,22 +741,21 @@ def _real_rules(rules):
         elif t == r.CHARSET_RULE:
             out.append(['charset', r.encoding])
         elif t == r.VARIABLES_RULE:
-            # the mapping the DOM shows, in the order of the declaration's seq: normalised name -> value
-            from cssutils.helper import normalize
-            out.append(['variables', [[normalize(i.value[0]), norm_text(i.value[1].cssText)]
-                                      for i in r.variables.seq if i.type == 'var']])
+            # the mapping the DOM shows (public accessors), in declaration order: key -> value
+            vs = r.variables
+            out.append(['variables', [[k, norm_text(vs.getVariableValue(k))] for k in vs.keys()]])
         else:
             out.append(['other', t])
     return out
 
 
-def real_struct(text):
+def real_struct(text, validate=True):
     """structure-level projection of parseString(text), or ('RAISE', message)"""
     from lib.framework import time_limit, TimeLimit
     c = _cu()
     try:
         with time_limit(30):
-            sheet = c.CSSParser(fetcher=lambda url: None).parseString(text)
+            sheet = c.CSSParser(fetcher=lambda url: None, validate=validate).parseString(text)
     except TimeLimit:
         raise
     except Exception as e:
